@@ -7,6 +7,8 @@
 //	cfgvalidate seq <sequences.ndjson> <out.ndjson>  (documents loaded one after the other in ONE process, one goroutine:
 //	                                                 input line {"docs": [text..], "types": {..}}, output line {"i", "loads": [output..]})
 //	cfgvalidate builtin <docs.ndjson> <out.ndjson>   (builtin.go: real otlphttp exporter / otlp receiver configs with secrets)
+//	cfgvalidate settings <out.ndjson>                (settings.go: default configuration of every built-in factory as confmap marshals it)
+//	cfgvalidate overlay-builtin <docs.ndjson> <out.ndjson>  (settings.go: documents of the real built-in components -> effective component configs)
 //	cfgvalidate walk <trees.ndjson> <out.ndjson>     (walk.go: xconfmap.Validate on generated value trees)
 //
 // input line:  {"doc": "<yaml/json text>", "types": {"receivers":[..],"processors":[..],"exporters":[..],"connectors":[..],"extensions":[..]}}
@@ -387,6 +389,20 @@ func main() {
 	}
 	if os.Args[1] == "builtin" {
 		if err := runBuiltin(os.Args[2], os.Args[3]); err != nil {
+			fmt.Fprintln(os.Stderr, err)
+			os.Exit(1)
+		}
+		return
+	}
+	if os.Args[1] == "settings" {
+		if err := runSettings(os.Args[2]); err != nil {
+			fmt.Fprintln(os.Stderr, err)
+			os.Exit(1)
+		}
+		return
+	}
+	if os.Args[1] == "overlay-builtin" && len(os.Args) >= 4 {
+		if err := runOverlayBuiltin(os.Args[2], os.Args[3]); err != nil {
 			fmt.Fprintln(os.Stderr, err)
 			os.Exit(1)
 		}
